@@ -14,8 +14,12 @@ CLAIMED={
  "C01":("exploration","Seeded search over share-message sequences, delivery interleavings at database round trips and row orders against one real receiver; ledger oracle with reference keys.","§3 C01"),
  "C03":("exploration","Seeded search over delivery orders, duplicates, bounded loss and database-round-trip interleavings between n real message stacks; acceptance and convergence oracles.","§3 C03"),
  "C04":("exploration","Byzantine peer with field mutations against generated receiver database states; real validator verdict vs reference predicate; no-effect-on-reject via database hash.","§3 C04"),
+ "C05":("exploration","Byzantine peer publishing raw and structure-aware mutated messages on every topic against all five node flavours; panic, hang, allocation and recovery oracles over the running system.","§3 C05"),
+ "C06":("exploration","Byzantine peer with generated signer/signature lists against the real Gnosis / service validator chains and the access node; verdict vs the statement's predicate.","§3 C06"),
 }
 NOTES={
+ "C05":"process-wide allocation metering with a generous constant; pgsim fidelity",
+ "C06":"ECDSA recovery and SSZ hashing are trusted primitives shared with the reference",
  "C01":"message-granularity reading of 'exactly when'; pgsim fidelity (conformance run); trusted-dealer eon keys",
  "C03":"simnet models gossipsub's contract; pgsim fidelity; core flavour only so far",
  "C04":"shlib pairing checks are ground truth; pgsim fidelity",
